@@ -65,3 +65,134 @@ Example C15_dag_nonvacuous :
   gg_dag_tree 2 = GGOk (mkIOG KDirected [] 7 0 [(1,5); (2,5); (3,6); (4,6); (5,7); (6,7)]) /\
   gg_dag_path 3 = GGOk (mkIOG KDirected [] 4 0 [(1,2); (2,3); (3,4)]).
 Proof. vm_compute. repeat split. Qed.
+
+(* ---- (5) plantclique / plantbiclique: the sampled set is a clique afterwards, nothing is removed, nothing else is added ---- *)
+Theorem C15_plantclique : forall G k s G' s', io_kind G = KSimple -> gg_plantclique G k s = GGOk (G', s') ->
+  exists c, length c = Z.to_nat k /\ NoDup c /\ 0 <= k <= io_n G /\ (forall v, In v c -> 1 <= v <= io_n G) /\
+    (forall v w, In v c -> In w c -> v <> w -> gio_has_edge G' v w = true) /\
+    (forall e, In e (io_edges G) -> In e (io_edges G')) /\
+    (forall e, In e (io_edges G') -> In e (io_edges G) \/ (In (fst e) c /\ In (snd e) c)) /\
+    io_kind G' = KSimple /\ io_n G' = io_n G.
+Proof. exact plantclique_clique. Qed.
+Print Assumptions C15_plantclique.
+Theorem C15_plantbiclique : forall G a b s G' s', io_kind G = KBipartite -> gg_plantbiclique G a b s = GGOk (G', s') ->
+  exists lf rt, length lf = Z.to_nat a /\ length rt = Z.to_nat b /\ NoDup lf /\ NoDup rt /\
+    (forall u, In u lf -> 1 <= u <= io_n G) /\ (forall v, In v rt -> 1 <= v <= io_r G) /\
+    (forall u v, In u lf -> In v rt -> gio_has_edge G' u v = true) /\
+    (forall e, In e (io_edges G) -> In e (io_edges G')) /\
+    (forall e, In e (io_edges G') -> In e (io_edges G) \/ (In (fst e) lf /\ In (snd e) rt)) /\
+    io_kind G' = KBipartite /\ io_n G' = io_n G /\ io_r G' = io_r G.
+Proof. exact plantbiclique_biclique. Qed.
+Print Assumptions C15_plantbiclique.
+Example C15_plant_nonvacuous :
+  gg_plantclique (mkIOG KSimple [] 5 0 [(1,2)]) 3 [4; 0; 2] = GGOk (mkIOG KSimple [] 5 0 [(1,2); (1,3); (1,5); (3,5)], []) /\
+  gg_plantclique (mkIOG KSimple [] 5 0 [(1,2)]) 6 [] = GGRaise EValueError /\
+  gg_plantclique (mkIOG KSimple [] 5 0 [(1,2)]) 2 [4; 4] = GGBadOracle /\
+  gg_plantbiclique (mkIOG KBipartite [] 2 3 []) 1 2 [1; 2; 0] = GGOk (mkIOG KBipartite [] 2 3 [(2,1); (2,3)], []).
+Proof. vm_compute. repeat split. Qed.
+
+(* ---- (6) addedges: exactly m more edges, the old ones kept, orders unchanged (simple and bipartite graphs) ---- *)
+Theorem C15_addedges : forall G m s G' s', io_kind G <> KDirected -> gg_add_missing G m s = GGOk (G', s') ->
+  gg_nedges G' = gg_nedges G + m /\ 0 <= m /\
+  io_kind G' = io_kind G /\ io_n G' = io_n G /\ io_r G' = io_r G /\ (forall e, In e (io_edges G) -> In e (io_edges G')).
+Proof. exact add_missing_exact. Qed.
+Print Assumptions C15_addedges.
+Example C15_addedges_nonvacuous :
+  (* ten collisions per requested edge, then the fallback sample of the available edges *)
+  gg_add_missing (mkIOG KSimple [] 4 0 [(1,2)]) 2 ([0;1;0;1;0;1;0;1;0;1;0;1;0;1;0;1;0;1;0;1;0;1;0;1;0;1;0;1;0;1;0;1;0;1;0;1;0;1;0;1] ++ [4; 0])
+    = GGOk (mkIOG KSimple [] 4 0 [(1,2); (1,3); (3,4)], []) /\
+  gg_add_missing (mkIOG KSimple [] 3 0 [(1,2); (1,3); (2,3)]) 1 [] = GGRaise EValueError.
+Proof. vm_compute. repeat split. Qed.
+
+(* ---- (7) splitedges: exactly k more vertices and k more edges, the graph stays a well-formed simple graph ---- *)
+Theorem C15_splitedges : forall G k s G' s', gio_wf G -> gg_split_edges G k s = GGOk (G', s') ->
+  io_kind G = KSimple /\ io_kind G' = KSimple /\ 0 <= k /\
+  io_n G' = io_n G + k /\ gg_nedges G' = gg_nedges G + k /\ gio_wf G'.
+Proof. exact split_exact. Qed.
+Print Assumptions C15_splitedges.
+Example C15_splitedges_nonvacuous :
+  gg_split_edges (mkIOG KSimple [] 3 0 [(1,2); (1,3); (2,3)]) 2 [2; 0] = GGOk (mkIOG KSimple [] 5 0 [(1,3); (1,5); (2,4); (2,5); (3,4)], []) /\
+  gg_split_edges (mkIOG KSimple [] 3 0 [(1,2)]) 2 [] = GGRaise EValueError /\
+  gg_split_edges (mkIOG KBipartite [] 2 2 [(1,2)]) 1 [0] = GGRaise ETypeError.
+Proof. vm_compute. repeat split. Qed.
+
+(* ---- (8) the argument guards of graph_build.py imply the precondition of what is called next ---- *)
+(* gnd: N = d passes the guard and breaks 0 <= d < n of networkx.random_regular_graph (NetworkXError escapes): defect D14 *)
+Theorem C15_gnd_guard_refuted : exists n d, gg_guard_gnd [n; d] = true /\ ~ gg_pre_nx_random_regular d n.
+Proof. exact guard_gnd_refuted. Qed.
+Print Assumptions C15_gnd_guard_refuted.
+Theorem C15_gnd_guard_partial : forall args, gg_guard_gnd args = true ->
+  exists n d, args = [n; d] /\ (d < n -> gg_pre_nx_random_regular d n).
+Proof. exact guard_gnd_partial. Qed.
+Print Assumptions C15_gnd_guard_partial.
+Theorem C15_gnd_guard_spec : forall args, gg_guard_gnd_spec args = true ->
+  exists n d, args = [n; d] /\ gg_pre_nx_random_regular d n.
+Proof. exact guard_gnd_spec_pre. Qed.
+Print Assumptions C15_gnd_guard_spec.
+Theorem C15_gnm_guard : forall args, gg_guard_gnm args = true -> exists n m, args = [n; m] /\ gg_pre_nx_gnm n m.
+Proof. exact guard_gnm_pre. Qed.
+Print Assumptions C15_gnm_guard.
+Theorem C15_grid_guard : forall dims, gg_guard_grid dims = true -> gg_pre_nx_grid dims.
+Proof. exact guard_grid_pre. Qed.
+Print Assumptions C15_grid_guard.
+Theorem C15_complete_simple_guard : forall args, gg_guard_complete_simple args = true ->
+  (exists n, args = [n] /\ 0 < n) \/ (exists n b, args = [n; b] /\ gg_pre_nx_multipartite n b).
+Proof. exact guard_complete_simple_pre. Qed.
+Print Assumptions C15_complete_simple_guard.
+Theorem C15_glrm_guard : forall args, gg_guard_glrm args = true -> exists l r m, args = [l; r; m] /\ gg_pre_m_edges l r m.
+Proof. exact guard_glrm_pre. Qed.
+Print Assumptions C15_glrm_guard.
+Theorem C15_glrd_guard : forall args, gg_guard_glrd args = true -> exists l r d, args = [l; r; d] /\ gg_pre_left_regular l r d.
+Proof. exact guard_glrd_pre. Qed.
+Print Assumptions C15_glrd_guard.
+Theorem C15_regular_guard : forall args, gg_guard_regular args = true ->
+  exists l r d, args = [l; r; d] /\ gg_pre_random_regular l r d /\ d <= r.
+Proof. exact guard_regular_pre. Qed.
+Print Assumptions C15_regular_guard.
+Theorem C15_shift_guard : forall values, gg_guard_shift values = true ->
+  exists L R pat, values = L :: R :: pat /\ gg_pre_shift L R (gio_sort Z.ltb pat) /\ (forall x, In x pat -> 0 <= x <= R).
+Proof. exact guard_shift_pre. Qed.
+Print Assumptions C15_shift_guard.
+Theorem C15_bipartite_orders_guard : forall args, gg_guard_two_positive args = true ->
+  exists l r, args = [l; r] /\ gg_pre_orders l r /\ 0 < l /\ 0 < r.
+Proof. exact guard_two_positive_pre. Qed.
+Print Assumptions C15_bipartite_orders_guard.
+Theorem C15_height_guard : forall args, gg_guard_one_nonneg args = true -> exists h, args = [h] /\ gg_pre_height h.
+Proof. exact guard_one_nonneg_pre. Qed.
+Print Assumptions C15_height_guard.
+Theorem C15_plantclique_guard : forall args n, gg_guard_one_nonneg args = true ->
+  exists k, args = [k] /\ ((n <? k) = false -> gg_pre_sample n k).
+Proof. exact guard_plantclique_pre. Qed.
+Print Assumptions C15_plantclique_guard.
+Theorem C15_plantbiclique_guard : forall args L R, gg_guard_two_nonneg args = true ->
+  exists a b, args = [a; b] /\ ((L <? a) || (R <? b) = false -> gg_pre_sample L a /\ gg_pre_sample R b).
+Proof. exact guard_plantbiclique_pre. Qed.
+Print Assumptions C15_plantbiclique_guard.
+(* path / tree / pyramid on the command line: an acyclic graph or a ValueError, nothing else, for every argument list *)
+Theorem C15_dag_cli_total : forall which args,
+  (exists G, gg_obtain_dag which args = GGOk G /\ gio_is_dag G = true) \/ gg_obtain_dag which args = GGRaise EValueError.
+Proof. exact obtain_dag_total. Qed.
+Print Assumptions C15_dag_cli_total.
+Example C15_guard_nonvacuous :
+  gg_guard_gnd [4; 4] = true /\ gg_guard_gnd_spec [4; 4] = false /\ gg_guard_gnd [6; 3] = true /\ gg_guard_gnd [5; 3] = false /\
+  gg_guard_glrm [3; 3; 9] = true /\ gg_guard_glrm [3; 3; 10] = false /\ gg_guard_regular [4; 2; 1] = true /\
+  gg_guard_regular [3; 2; 1] = false /\ gg_guard_shift [3; 3; 0; 3] = true /\ gg_guard_shift [3; 3; 1; 1] = false.
+Proof. vm_compute. repeat split. Qed.
+
+(* ---- (9) shift: the named graph; the caller's pattern ---- *)
+Theorem C15_shift : forall b N M pat G p', gg_shift b N M pat = GGOk (G, p') ->
+  io_kind G = KBipartite /\ io_n G = N /\ io_r G = M /\ 1 <= N /\ 1 <= M /\
+  (forall u v, gio_has_edge G u v = true <-> 1 <= u <= N /\ exists o, In o pat /\ v = 1 + (u - 1 + o) mod M) /\
+  p' = (if b then gio_sort Z.ltb pat else pat).
+Proof. exact shift_named. Qed.
+Print Assumptions C15_shift.
+Theorem C15_shift_returns : forall b N M pat, 1 <= N -> 1 <= M -> exists G p', gg_shift b N M pat = GGOk (G, p').
+Proof. exact shift_returns. Qed.
+Print Assumptions C15_shift_returns.
+Theorem C15_shift_keeps_pattern_spec : forall N M pat G p', gg_shift_spec N M pat = GGOk (G, p') -> p' = pat.
+Proof. exact shift_spec_keeps_pattern. Qed.
+Print Assumptions C15_shift_keeps_pattern_spec.
+(* the code as it was: pattern.sort() on the caller's list (defect D11) *)
+Theorem C15_shift_keeps_pattern_refuted : exists N M pat G p', gg_shift_as_is N M pat = GGOk (G, p') /\ p' <> pat.
+Proof. exact shift_as_is_changes_pattern. Qed.
+Print Assumptions C15_shift_keeps_pattern_refuted.
